@@ -420,9 +420,18 @@ void xop(string *a) {
 
 // efun callback frames; the result of each efun is recorded: it does not depend on what the callbacks' scripts do, so a
 // caught error inside a callback (possibly inside a nested efun of the same kind) must not change it
+string nf_cb2(string script) { rec("NFCB2 " + me()); run(script); return "NFMSG2 " + me() + "\n"; }
 void eop(string *a) {
   mixed r; int n;
   switch (a[0]) {
+  case "nfs":     // nfs <text>: notify_fail(string) - also from inside a notify_fail function that is running
+    notify_fail(implode(a[1..], " ") + "\n");
+    rec("NFS " + me());
+    break;
+  case "nff":     // nff <script>: notify_fail(function)
+    notify_fail((: nf_cb2, sub(implode(a[1..], " ")) :));
+    rec("NFF " + me());
+    break;
   case "filter":  // filter <n> <script>
     n = to_int(a[1]);
     r = filter(allocate(n), "run_ret_cb", this_object(), sub(implode(a[2..], " ")));
@@ -678,7 +687,7 @@ void do_op(string op) {
   case "filter": case "map": case "sort":
     eop(a);
     break;
-  case "exec": case "parse": case "snoop":
+  case "exec": case "parse": case "snoop": case "nfs": case "nff":
     eop(a);
     break;
   case "spread2": // spread2 <script>: f(args..., g(script)) - the script runs between the expansion and the call
